@@ -127,6 +127,15 @@ class C08(Check):
                                            "secs": [{"union": True, "hdr": None, "items": vit + cit, "seal": rng.choice(["sealed", 64])}]})
             ws["roots"][0]["defs"].append({"name": rn0 + ".TagKHost", "ver": [1, 0], "port": None, "ext": "dsdl", "dep": False,
                                            "secs": [{"union": False, "hdr": None, "items": [["f", ["u", 5, "s"], "pre"], ["f", ["ref", rn0 + ".TagK", 1, 0], "u"], ["f", ["u", 8, "s"], "post"]], "seal": "sealed"}]})
+        if rng.random() < 0.2 and (ws["roots"][0]["name"] + ".ApxU").lower() not in {d["name"].lower() for d in ws["roots"][0]["defs"]}:
+            # a union whose variants have different but approximately equal length sets (same min, max and residues mod 32), the
+            # sparser one first, followed by another field in a host structure
+            a1, a2 = rng.choice([(["var", ["f", 64, "s"], 1], ["var", ["f", 32, "s"], 2]), (["var", ["u", 64, "s"], 1], ["var", ["u", 32, "s"], 2]), (["var", ["u", 64, "t"], 2], ["var", ["u", 32, "t"], 4])])
+            vs = [["f", a1, "wide"], ["f", a2, "narrow"]] + ([["f", ["u", 8, "s"], "tiny"]] if rng.random() < 0.4 else [])
+            ws["roots"][0]["defs"].append({"name": ws["roots"][0]["name"] + ".ApxU", "ver": [1, 0], "port": None, "ext": "dsdl", "dep": False,
+                                 "secs": [{"union": True, "hdr": None, "items": vs, "seal": "sealed"}]})
+            ws["roots"][0]["defs"].append({"name": ws["roots"][0]["name"] + ".ApxUHost", "ver": [1, 0], "port": None, "ext": "dsdl", "dep": False,
+                                 "secs": [{"union": False, "hdr": None, "items": [["f", ["ref", ws["roots"][0]["name"] + ".ApxU", 1, 0], "sample"], ["f", ["u", 16, "s"], "status"], ["f", ["arr", ["ref", ws["roots"][0]["name"] + ".ApxU", 1, 0], 2], "pair"], ["f", ["u", 3, "s"], "z"]], "seal": "sealed"}]})
         # a definition that has an *approximately equal* revision: same name, version, kind, min, max and residues mod 32 of the
         # length set, but different members ({16, 24, ..} with and without a gap); its _bit_length_ is printed in both passes
         apx = None
